@@ -719,7 +719,9 @@ class Reference(Origin):
 
     @functools.cached_property
     def features(self) -> typing.Sequence['dsl.Element']:
-        return tuple(series.Element(self, c.name) for c in self.instance.features)
+        return tuple(
+            series.Element(self, getattr(c, 'name', None) or f'_{i}') for i, c in enumerate(self.instance.features)
+        )
 
     @property
     def schema(self) -> 'dsl.Source.Schema':
